@@ -1,7 +1,9 @@
 (* C16 - SPARQL results survive their exchange formats.  Property theorems only;
    the model is Results/Model.v, proofs are in Results/Proofs*.v and Results/Main.v.
    Terms are IRI s | BNode s | Lit lex dt lang over strings of code points; the Python
-   constructor Literal(lex, dt, lang) is taken to keep that triple (its normalisation is C09). *)
+   constructor Literal(lex, dt, lang) is taken to keep that triple (its normalisation is C09).
+   The model mirrors the code after the repairs of F11a-F11h (notes/C16.md): no trigger
+   region is left, every theorem below is stated for all well-formed cases. *)
 From RV Require Import Results.Model Results.Proofs Results.ProofsXml Results.ProofsTsv Results.ProofsTsvDoc Results.Main.
 Local Open Scope N_scope.
 
@@ -28,27 +30,41 @@ Proof.
 Qed.
 Print Assumptions C16_json_result.
 
-(* XML, character level: what XMLGenerator.characters writes is read back unchanged when it
-   consists of XML Chars other than CR; what quoteattr writes is read back unchanged for all XML Chars *)
-Theorem C16_xml_text : forall s, forallb text_char s = true -> xml_read false (sax_escape s) = Some s.
-Proof. exact xml_read_text. Qed.
+(* XML, character level: what SPARQLXMLWriter._characters writes (escape of & < >, CR as the
+   reference &#13; between the pieces of text.split(CR)) is read back unchanged for EVERY string of
+   XML Chars, carriage returns included; what quoteattr writes likewise *)
+Theorem C16_xml_text : forall s, str_xml s = true -> xml_read false (xml_characters s) = Some s.
+Proof. exact xml_read_characters. Qed.
 Print Assumptions C16_xml_text.
 
 Theorem C16_xml_attr : forall s, forallb is_xml_char s = true -> xml_read_attr (sax_quoteattr s) = Some s.
 Proof. exact xml_read_attr_ok. Qed.
 Print Assumptions C16_xml_attr.
 
-(* XML: outside the trigger regions (non-Chars F11b, CR in content F11c, a literal whose datatype is
-   the empty IRI F11d) the result comes back as specified - literals with a falsy Python value and the
-   empty IRI included, since the repairs of F11g and of the first half of F11d *)
-Theorem C16_xml_result : forall c, wf c = true -> kf c = 0 -> c_fmt c = FXml -> spec_ok c (model_obs c) = true.
+(* XML, one term: element written by write_binding, decoded by the XML reader, parseTerm - any
+   well-formed term over XML Chars: empty IRI, empty datatype IRI, CR, falsy values included *)
+Theorem C16_xml_term : forall t,
+  term_wf t = true -> forallb str_xml (term_strings t) = true -> xml_elem_roundtrip t = Some t.
+Proof. exact xml_term_ok. Qed.
+Print Assumptions C16_xml_term.
+
+(* XML, a SELECT result: if every string is expressible in XML 1.0 it comes back with its variables
+   in order and row by row its bound cells (all-unbound rows kept); otherwise the serialiser refuses
+   (ResultException) - it never writes a document that cannot be read or that reads differently *)
+Theorem C16_xml_select : forall c, wf c = true -> c_fmt c = FXml -> c_ask c = None ->
+  model_obs c = if xml_expressible c then OSel (c_vars c) (map bound_of (c_rows c)) else ORefused.
+Proof. exact xml_select. Qed.
+Print Assumptions C16_xml_select.
+
+Theorem C16_xml_result : forall c, wf c = true -> c_fmt c = FXml -> spec_ok c (model_obs c) = true.
 Proof. exact xml_ok. Qed.
 Print Assumptions C16_xml_result.
 
 (* TSV: the reader's TERM scanner recovers every term from every rendering of the W3C term grammar
-   (either quote, optional ECHARs, bare integers and booleans), whatever follows in the row *)
+   (either quote, optional ECHARs - that of the other quote included -, bare integers and booleans),
+   whatever follows in the row *)
 Theorem C16_tsv_terms : forall st t rest,
-  term_wf t = true -> term_tsv_ok t = true -> uses_cross st t = false -> at_empty rest = true ->
+  term_wf t = true -> term_tsv_ok t = true -> at_empty rest = true ->
   scan_term (render_term st t ++ rest) = Some (t, rest).
 Proof. exact scan_term_render. Qed.
 Print Assumptions C16_tsv_terms.
@@ -62,41 +78,45 @@ Theorem C16_tsv_row : forall st vars r,
 Proof. exact tsv_row_ok. Qed.
 Print Assumptions C16_tsv_row.
 
+(* TSV, the whole document, from any kind of source: the reader gives back the variables in order
+   and one dictionary per table row, in order - rows with nothing bound included, any legal variable
+   names, any characters inside IRIs and literals (U+2028, FF, U+0085 ... are no line ends).
+   All hypotheses are well-formedness. *)
+Theorem C16_tsv_rows : forall st vars rows,
+  vars <> [] -> forallb varname_ok vars = true ->
+  (forall r, In r rows -> forall v, In v vars -> cell_ok st (cell v r)) ->
+  (forall r, In r rows -> forall t, In t (row_terms r) -> term_tsv_ok t = true) ->
+  tsv_parse (render_doc st vars rows)
+  = OSel vars (map (fun r => zip_row vars (map (fun v => cell v r) vars)) rows).
+Proof. exact tsv_doc_ok. Qed.
+Print Assumptions C16_tsv_rows.
+
+Theorem C16_tsv_result : forall c, wf c = true -> c_fmt c = FTsv -> spec_ok c (model_obs c) = true.
+Proof. exact tsv_ok. Qed.
+Print Assumptions C16_tsv_result.
+
 (* CSV: header, row sequence and the string value of every cell *)
 Theorem C16_csv_cells : forall c, wf c = true -> c_fmt c = FCsv -> spec_ok c (model_obs c) = true.
 Proof. exact csv_main. Qed.
 Print Assumptions C16_csv_cells.
 
-(* TSV, the whole document: the reader gives back the variables in order and one dictionary per
-   table row, in order - rows with nothing bound included (since the repair of F11a) - provided the
-   header survives strip() (F11h) and, on a byte source, no line-break character other than LF occurs
-   raw (F11e).  The hypotheses are those of well-formed cases outside the triggers. *)
-Theorem C16_tsv_rows : forall st bytes vars rows,
-  vars <> [] -> forallb varname_ok vars = true ->
-  py_isspace (last (render_header vars) 0) = false ->
-  (forall r, In r rows -> forall v, In v vars -> cell_ok st (cell v r)) ->
-  (forall r, In r rows -> forall t, In t (row_terms r) -> term_tsv_ok t = true) ->
-  bytes && existsb raw_break (render_doc st vars rows) = false ->
-  tsv_parse bytes (render_doc st vars rows)
-  = OSel vars (map (fun r => zip_row vars (map (fun v => cell v r) vars)) rows).
-Proof. exact tsv_doc_ok. Qed.
-Print Assumptions C16_tsv_rows.
-
-Theorem C16_tsv_result : forall c, wf c = true -> kf c = 0 -> c_fmt c = FTsv -> spec_ok c (model_obs c) = true.
-Proof. exact tsv_ok. Qed.
-Print Assumptions C16_tsv_result.
-
-(* model and checker, all four formats *)
-Theorem C16_spec_ok_model : forall c, wf c = true -> kf c = 0 -> spec_ok c (model_obs c) = true.
+(* model and checker, all four formats, every well-formed case *)
+Theorem C16_spec_ok_model : forall c, wf c = true -> spec_ok c (model_obs c) = true.
 Proof. exact spec_ok_model. Qed.
 Print Assumptions C16_spec_ok_model.
 
 (* Prop-level readings of the checker *)
 Theorem C16_spec_select_reading : forall c vs ps,
-  c_fmt c <> FCsv -> c_ask c = None ->
+  c_fmt c <> FCsv -> c_ask c = None -> (c_fmt c = FXml -> xml_expressible c = true) ->
   (spec_ok c (OSel vs ps) = true <-> vs = c_vars c /\ Forall2 (row_agrees (c_vars c)) (c_rows c) ps).
 Proof. exact spec_ok_select_reading. Qed.
 Print Assumptions C16_spec_select_reading.
+
+Theorem C16_spec_refusal_reading : forall c o,
+  c_fmt c = FXml -> c_ask c = None -> xml_expressible c = false ->
+  (spec_ok c o = true <-> o = ORefused).
+Proof. exact spec_ok_refusal_reading. Qed.
+Print Assumptions C16_spec_refusal_reading.
 
 Theorem C16_spec_ask_reading : forall c b o,
   c_fmt c <> FCsv -> c_ask c = Some b -> (spec_ok c o = true <-> o = OAsk b).
@@ -110,8 +130,9 @@ Theorem C16_spec_csv_reading : forall c o,
 Proof. exact spec_ok_csv_reading. Qed.
 Print Assumptions C16_spec_csv_reading.
 
-(* the row loop as it was before the repair of F11a (kept in the model as tsv_rows_prefix) drops the
-   row with nothing bound; the current one keeps it *)
+(* history: the TSV row loop before 40b19e31 (kept in the model as tsv_rows_prefix) drops the row
+   with nothing bound, the current one keeps it; line splitting as before e84c9b4e on byte sources
+   (split_lines true) cuts a row at U+2028, the current one (split_lines false) does not *)
 Theorem C16_tsv_rows_prefix_refuted :
   tsv_rows_prefix [vx] (split_lines true [] (flat_map (fun r => render_row st0 [vx] r ++ [10]) (c_rows w_F11a)))
   = Some [[(vx, iri_a)]; [(vx, iri_a)]]
@@ -120,37 +141,29 @@ Theorem C16_tsv_rows_prefix_refuted :
 Proof. exact tsv_rows_prefix_refuted. Qed.
 Print Assumptions C16_tsv_rows_prefix_refuted.
 
-(* the remaining findings: well-formed cases on which the faithful model violates the property *)
-Theorem C16_xml_refuted :
-  (exists c, wf c = true /\ c_fmt c = FXml /\ kf c = 2 /\ spec_ok c (model_obs c) = false)
-  /\ (exists c, wf c = true /\ c_fmt c = FXml /\ kf c = 3 /\ spec_ok c (model_obs c) = false)
-  /\ (exists c, wf c = true /\ c_fmt c = FXml /\ kf c = 4 /\ spec_ok c (model_obs c) = false).
-Proof.
-  split; [exists w_F11b|split; [exists w_F11c|exists w_F11d]]; vm_compute; repeat split.
-Qed.
-Print Assumptions C16_xml_refuted.
+Theorem C16_split_lines_prefix_refuted :
+  List.length (split_lines true [] (render_doc st0 [vx] (c_rows w_F11e))) = 3%nat
+  /\ List.length (split_lines false [] (render_doc st0 [vx] (c_rows w_F11e))) = 2%nat.
+Proof. exact split_lines_prefix_refuted. Qed.
+Print Assumptions C16_split_lines_prefix_refuted.
 
-Theorem C16_tsv_reader_refuted :
-  (exists c, wf c = true /\ c_fmt c = FTsv /\ kf c = 5 /\ spec_ok c (model_obs c) = false)
-  /\ (exists c, wf c = true /\ c_fmt c = FTsv /\ kf c = 6 /\ spec_ok c (model_obs c) = false)
-  /\ (exists c, wf c = true /\ c_fmt c = FTsv /\ kf c = 1 /\ spec_ok c (model_obs c) = false).
-Proof. split; [exists w_F11e|split; [exists w_F11f|exists w_F11h]]; vm_compute; repeat split. Qed.
-Print Assumptions C16_tsv_reader_refuted.
-
-(* non-vacuity: a well-formed XML case outside every trigger region with specials, an unbound
-   row and a trailing unbound column; and a TSV case with two styles *)
+(* non-vacuity: an XML case with specials, CR, a falsy literal, the empty IRI, an empty datatype,
+   an unbound row and a trailing unbound column; an inexpressible one that is refused; a TSV case
+   with all styles, a line separator inside a literal and an all-unbound row *)
 Example C16_nonvacuous :
-  let t1 := Lit [97; 38; 60; 34; 39; 9; 10; 128512] None (Some [101; 110]) in
-  let t2 := Lit [55] (Some xsd_integer) None in
+  let t1 := Lit [97; 38; 60; 34; 39; 9; 10; 13; 128512] None (Some [101; 110]) in
+  let t2 := Lit [55] (Some []) None in
   let t0 := Lit [48] (Some xsd_integer) None in
   let c := {| c_fmt := FXml; c_ask := None; c_vars := [[120]; [121]];
               c_rows := [[([120], Some t1)]; []; [([120], Some t2)]; [([121], Some (IRI [])); ([120], Some t0)]];
               c_style := st0; c_bytes := true |} in
-  wf c = true /\ kf c = 0
+  wf c = true /\ xml_expressible c = true
   /\ model_obs c = OSel [[120]; [121]] [[([120], t1)]; []; [([120], t2)]; [([121], IRI []); ([120], t0)]]
+  /\ (wf w_F11b = true /\ xml_expressible w_F11b = false /\ model_obs w_F11b = ORefused)
   /\ let c' := {| c_fmt := FTsv; c_ask := None; c_vars := [[120]; [121]];
-                  c_rows := [[([121], Some t1)]; []; [([120], Some t2); ([121], Some (BNode [98; 46; 99]))]];
-                  c_style := {| st_sq := true; st_esc_all := true; st_bare := true; st_cross := false |};
+                  c_rows := [[([121], Some (Lit [97; 8232; 39; 34] None None))]; [];
+                             [([120], Some t0); ([121], Some (BNode [98; 46; 99]))]];
+                  c_style := {| st_sq := true; st_esc_all := true; st_bare := true; st_cross := true |};
                   c_bytes := true |} in
-     wf c' = true /\ kf c' = 0 /\ spec_ok c' (model_obs c') = true.
+     wf c' = true /\ spec_ok c' (model_obs c') = true.
 Proof. vm_compute. repeat split. Qed.
